@@ -356,6 +356,21 @@ def r179(ctx, ut):
                 ok_build = all(r['build'] in ('type(self)(float(self))', 'type(self)(self.si)') for r in vs)
                 sets = all(r['attrs'].get('_unit') == kw for r in vs)
                 ok = ok_build and sets
+    if not ok and not arith:
+        # by cases (E10): with a declared unit every path builds type(self)(<the SI value>) and stores the new unit on it; with an
+        # undeclared unit every path raises
+        from .c16 import val_summary
+        from ..pathsum import PathSum, Unsupported as _U
+        acc = val_summary(prog, 'Quantity', {nu}, mname='as_unit', extra_env={('bool', f'{nu} in self._units'): True})
+        try:
+            rej = PathSum(prog, 'Quantity', fn, {('isnone', nu): False, ('bool', f'{nu} in self._units'): False}, assume_validated=False).run()
+        except _U:
+            rej = None
+        if isinstance(acc, list) and acc and rej is not None:
+            guard = bool(rej) and all(o.kind == 'raise' for o in rej)
+            ok_build = all(r['build'] in ('type(self)(float(self))', 'type(self)(self.si)') for r in acc)
+            sets = all(r['attrs'].get('_unit') == nu for r in acc)
+            ok = guard and ok_build and sets
     ctx.ob('R17.9', 'Quantity.as_unit', ok, sample=f'as_unit: guard {guard}, copy from SI value without unit {ok_build}, no arithmetic {not arith}')
     if not ok:
         ctx.finding('R17.9', 'Quantity.as_unit', ci, fn,
